@@ -170,7 +170,7 @@ def work(item):
     env, lst = item
     fails, n = [], 0
     for name, steps, N, want_loop in lst:
-        r = common.run_cases([{"id": 0, "steps": steps}], env=env, batch=1, timeout_ms=120000)[0]
+        r = common.run_cases([{"id": 0, "steps": steps}], env=env, batch=1, timeout_ms=120000, retry_timeouts=False)[0]
         n += 1
         if r["exit"] != "normal" or len(r["steps"]) != len(steps):
             fails.append((name, "crash:" + r["exit"], steps))
@@ -197,7 +197,7 @@ def work_exit_depth(item):
         obs = []
         for N in (66, 1500):  # same residue modulo 2 and 3: the loop exits in the same function
             steps = build(kind, ctx, par, extra, N, probe=False)
-            r = common.run_cases([{"id": 0, "steps": steps}], env=env, batch=1, timeout_ms=120000)[0]
+            r = common.run_cases([{"id": 0, "steps": steps}], env=env, batch=1, timeout_ms=120000, retry_timeouts=False)[0]
             n += 1
             if r["exit"] != "normal" or len(r["steps"]) != len(steps) or any(s["s"] != "ok" for s in r["steps"]):
                 obs.append("FAILED(%s)" % r["exit"])
@@ -210,7 +210,7 @@ def work_exit_depth(item):
 
 
 def rss_of(steps, env):
-    r = common.run_cases([{"id": 0, "steps": steps + [{"op": "rss"}]}], env=env, batch=1, timeout_ms=600000)[0]
+    r = common.run_cases([{"id": 0, "steps": steps + [{"op": "rss"}]}], env=env, batch=1, timeout_ms=600000, retry_timeouts=False)[0]
     if r["exit"] != "normal" or len(r["steps"]) != len(steps) + 1 or any(s["s"] != "ok" for s in r["steps"]):
         return None, r["exit"], [s for s in r["steps"] if s["s"] != "ok"][:1]
     return r["steps"][-1]["v"][0], "normal", None
